@@ -72,6 +72,8 @@ class Recorder:
         self.in_lookup = None    # list collecting table answers of a running _createLookupBinary
         self.solver = None
         self.upd_phase = None
+        self._in_growth = False
+        self.setup_eq = None
 
     # ---- answer builders
     def new_eval(self):
@@ -99,6 +101,8 @@ class Recorder:
             ctx['ph'][p]['d0'] = float(d[0, 0]); ctx['ph'][p]['d1'] = float(d[0, 1])
         elif name == 'impingementFactor':
             ctx['ph'][self._nuc_p]['d1'] = float(out)
+        elif name == 'getGrowthAndInterfacialComposition' and self.setup_eq is not None and len(self.setup_eq) < self.P and not self._in_growth:
+            self.setup_eq.append(None if out is None else (_cp(out[3]), _cp(out[4])))
         elif name == 'getGrowthAndInterfacialComposition':
             p = self._grow_p
             if out is None:
@@ -118,7 +122,10 @@ class Recorder:
             ph.append(dict(origMin=float(pbm.originalMin), origMax=float(pbm.originalMax), origBins=int(pbm.originalBins),
                            min=float(pbm.min), max=float(pbm.max), bins=int(pbm.bins), minBins=int(pbm.minBins),
                            maxBins=int(pbm.maxBins), adaptive=bool(pbm._adaptiveBinSize), psd=_cp(pbm.PSD), bounds=_cp(pbm.PSDbounds),
-                           size=_cp(pbm.PSDsize), xaT=_cp(m.PSDXalpha[p]), xbT=_cp(m.PSDXbeta[p]), growth=_cp(m.growth[p]),
+                           size=_cp(pbm.PSDsize),
+                           xaT=_cp(m.PSDXalpha[p]) if getattr(m, 'PSDXalpha', None) else np.zeros((0, self.E)),
+                           xbT=_cp(m.PSDXbeta[p]) if getattr(m, 'PSDXbeta', None) else np.zeros((0, self.E)),
+                           growth=_cp(m.growth[p]) if hasattr(m, 'growth') else np.zeros(0),
                            dissIdx=int(m.dissolutionIndex[p]), rdfIdx=int(m.RdrivingForceIndex[p])))
         rows = [self.row(n)] + ([self.row(n - 1)] if n >= 1 else [])
         if self.E == 1 and hasattr(m, '_lookupXEq'):
@@ -166,14 +173,18 @@ def config(m):
         x0=_cp(m.pData.composition[0]), phases=phases)
 
 
-def attach(model):
-    """wrap the instance; returns the Recorder (call before model.solve; setup() must have run or runs inside solve)"""
+def attach(model, capture_setup=False):
+    """wrap the instance; returns the Recorder (call before model.solve).  capture_setup=True: the model must not be set up yet;
+    setup() runs under the recorder and rec.setup = dict(pre, ans, eq, post) holds its entry state, answers and exit state"""
     vlib.use_repo()
     import kawin.precipitation.KWNBase as KB
     from kawin.solver.Solver import DESolver
     m = model
-    m.setup()
+    if not capture_setup:
+        m.setup()
     rec = Recorder(m)
+    rec.setup = None
+    rec.setup_eq = None
     m.therm = _Proxy(m.therm, rec)
     m.matrixParameters.effectiveDiffusion = _Eff(m.matrixParameters.effectiveDiffusion, rec)
     nuc = KB.nucfuncs
@@ -264,7 +275,11 @@ def attach(model):
         rec._grow_p = p
         if rec.ctx is not None:
             rec.ctx['ph'][p]['kin'] = kin_of(p)
-        return o_sgm(p, Y)
+        rec._in_growth = True
+        try:
+            return o_sgm(p, Y)
+        finally:
+            rec._in_growth = False
     m._singleGrowthMulti = sgm
 
     def lookup(T):
@@ -348,6 +363,18 @@ def attach(model):
         rec.steps.append(rec.cur)
         return out
     m.postProcess = post
+    if capture_setup and not m._isSetup:
+        pre_state = rec.state()
+        rec.ctx = rec.new_eval()
+        rec.ctx['T'] = float(m.temperatureParameters(m.pData.time[m.pData.n]))
+        rec.setup_eq = []
+        ans = rec.ctx
+        try:
+            m.setup()
+        finally:
+            rec.ctx = None
+        eq, rec.setup_eq = rec.setup_eq, None
+        rec.setup = dict(pre=pre_state, ans=ans, eq=eq, post=rec.state())
     return rec
 
 
@@ -492,7 +519,8 @@ def compare(st, mo, E, rtol=1e-9):
     num('dt', post['hist'][0]['time'] - st['pre']['hist'][0]['time'], mo['dt'], tol=1e-7)
     for p in range(len(post['ph'])):
         ip, mp = post['ph'][p], mo['ph'][p]
-        arr('xNew[%d]' % p, st['xNew'][p], mo['xNew'][p], tol=1e-7)
+        if p < len(mo['xNew']):
+            arr('xNew[%d]' % p, st['xNew'][p], mo['xNew'][p], tol=1e-7)
         if ip['bins'] != mp['bins']:
             diffs.append(('bins[%d]' % p, ip['bins'], mp['bins']))
         num('min[%d]' % p, ip['min'], mp['min']); num('max[%d]' % p, ip['max'], mp['max'])
@@ -690,7 +718,7 @@ def _one(ctx, res, prop, name, cap, observer, oracles=()):
     opts = name.split('@')[1:]
     if 'record' in opts:
         m.setPSDrecording(True)
-    rec = attach(m)
+    rec = attach(m, capture_setup=not m._isSetup)
     try:
         solver = 'rk4' if 'rk4' in opts else 'euler'
         if '2solves' in opts:
@@ -710,6 +738,12 @@ def _one(ctx, res, prop, name, cap, observer, oracles=()):
             res.extra['composed_step_driver'] = 'drv_C03 does not build'
             return m
         n, bad, stats = refine(prop, rec, cfg)
+        if rec.setup is not None:
+            d = refine_setup(prop, rec, cfg)
+            res.count('composed-step:%s:setup' % name)
+            if d:
+                res.disagree('setup() (KWNFull.setupState) vs implementation, scenario %s' % name, dict(scenario=name, seed=ctx.seed),
+                             [(w, a) for w, a, b in d[:6]], [(w, b) for w, a, b in d[:6]])
     finally:
         detach(rec)
     res.traces += 1
@@ -843,3 +877,23 @@ def step_oracles(res, rec, cfg, name, which):
                     res.violate('composed:recorded-psd-differs-from-stored', 'the size distribution recorded for a step is not the distribution stored by that step',
                                 dict(scenario=name, step=i, phase=p, first_class=j), float(row[j]), float(ph['psd'][j]))
                     break
+
+
+def enc_setup(cfg, su, rec):
+    E = cfg['nElem']
+    s = ['kwn.setup', enc_cfg(cfg), enc_state(su['pre'], E), enc_eval(su['ans'], E), str(len(su['eq']))]
+    for e in su['eq']:
+        s += ['none'] if e is None else ['some', enc_list(e[0]), enc_list(e[1])]
+    return ' '.join(s)
+
+
+def refine_setup(prop, rec, cfg):
+    """setup(): entry state + answers through `KWNFull.setupState`; returns the list of differences of the exit state"""
+    su = rec.setup
+    ans = vlib.run_driver(prop, [enc_setup(cfg, su, rec)])[0]
+    mo = dec_answer(ans)
+    if 'err' in mo:
+        return [('driver', ans[:200], '')]
+    st = dict(pre=su['pre'], post=su['post'], dtProp=0.0, xNew=[[] for _ in su['post']['ph']])
+    d = [x for x in compare(st, mo, cfg['nElem']) if not (x[0].startswith('xNew') or x[0] in ('dt', 'dtProposed', 'rows appended'))]
+    return d
